@@ -202,10 +202,54 @@ func leanReadMessage(b []byte, n *gen.Node) bool {
 	return leanWalkMessage(m, n)
 }
 
+// leanAbsent reads tags the message does not have, and positions beyond its table, through every kind
+// of accessor ("accessing any of its fields" includes the ones that are not there: a reader of a newer
+// schema version does that all the time).
+func leanAbsent(m spec.Message, n *gen.Node) {
+	present := func(t uint16) bool {
+		for i := range n.Fields {
+			if n.Fields[i].Tag == t {
+				return true
+			}
+		}
+		return false
+	}
+	for _, tag := range [...]uint16{0, 1, 2, 7, 255, 256, 257, 4000, 65535} {
+		if present(tag) {
+			continue
+		}
+		if m.HasField(tag) {
+			sinkI++
+		}
+		sinkB = m.Field(tag)
+		sinkB = m.FieldRaw(tag)
+		sinkI += int64(m.Int32(tag))
+		sinkI += m.Int64(tag)
+		sinkU += m.Uint64(tag)
+		sinkF += m.Float64(tag)
+		sinkB = m.Bytes(tag)
+		sinkS = m.String(tag)
+		if m.Bool(tag) {
+			sinkI++
+		}
+		sub := m.Message(tag)
+		sinkI += int64(sub.Fields())
+		lst := m.List(tag)
+		sinkI += int64(lst.Len())
+		_, sinkErr = m.Int32Err(tag)
+	}
+	sinkB = m.FieldAt(m.Fields())
+	sinkB = m.FieldAt(m.Fields() + 7)
+	if t, ok := m.TagAt(m.Fields()); ok {
+		sinkU += uint64(t)
+	}
+}
+
 func leanWalkMessage(m spec.Message, n *gen.Node) bool {
 	if m.Fields() != len(n.Fields) {
 		return false
 	}
+	leanAbsent(m, n)
 	ok := true
 	for i := range n.Fields {
 		tag := n.Fields[i].Tag
